@@ -9,7 +9,7 @@ rmdir "$WT"
 git -C /repo worktree add --detach "$WT" HEAD >/dev/null 2>&1 || exit 2
 trap 'git -C /repo worktree remove --force "$WT" >/dev/null 2>&1' EXIT
 echo "== demo on pristine tree"
-( cd "$D/demo" && sh ./run.sh "$WT" ) > "$WT/demo_before.log" 2>&1; B=$?
+( cd "$D/demo" && bash ./run.sh "$WT" ) > "$WT/demo_before.log" 2>&1; B=$?
 echo "   exit $B"
 ( cd "$WT" && git apply "$D/patch.diff" ) || { echo "patch does not apply"; exit 2; }
 echo "== build + ctest with the change"
@@ -18,7 +18,7 @@ cmake --build "$WT/_build" -j${JOBS:-12} > "$WT/build.log" 2>&1 || { tail -20 "$
 ctest --test-dir "$WT/_build" -j8 --timeout 900 > "$WT/ctest.log" 2>&1; C=$?
 grep -E "tests passed|tests failed" "$WT/ctest.log"
 echo "== demo with the change"
-( cd "$D/demo" && sh ./run.sh "$WT" ) > "$WT/demo_after.log" 2>&1; A=$?
+( cd "$D/demo" && bash ./run.sh "$WT" ) > "$WT/demo_after.log" 2>&1; A=$?
 echo "   exit $A"; tail -3 "$WT/demo_after.log"
 echo "SUMMARY demo_before=$B ctest=$C demo_after=$A"
 [ $B -eq 0 ] && [ $C -eq 0 ] && [ $A -ne 0 ]
